@@ -28,7 +28,7 @@ type gmpTriple struct {
 // famGmpHist drives the real GMP IBCModule.OnRecvPacket (inside a cache context that is written unless the
 // status is Failure, as channel-v2 RecvPacket does) and OnSendPacket over histories.
 func famGmpHist(t *testing.T, r *hx.Rng, o *hx.Out) {
-	nh := hx.N(8, 200)
+	nh := hx.N(8, 80)
 	for hi := 0; hi < nh; hi++ {
 		coord := ibctesting.NewCoordinator(t, 1)
 		chain := coord.GetChain(ibctesting.GetChainID(1))
